@@ -102,6 +102,19 @@ class Canon(ast.NodeTransformer):
 
     def visit_Assign(self, n):
         self.generic_visit(n)
+        # a, b = x, y  ->  a = x ; b = y     when no target is read by a value (not a swap) and the values are simple
+        if (
+            len(n.targets) == 1 and isinstance(n.targets[0], ast.Tuple) and isinstance(n.value, ast.Tuple)
+            and len(n.targets[0].elts) == len(n.value.elts) and len(n.value.elts) >= 2
+            and not any(isinstance(e, ast.Starred) for e in [*n.targets[0].elts, *n.value.elts])
+            and all(isinstance(t, ast.Name | ast.Attribute) for t in n.targets[0].elts)
+        ):
+            tgt_txt = [unparse(t) for t in n.targets[0].elts]
+            read = {unparse(x) for v in n.value.elts for x in ast.walk(v) if isinstance(x, ast.Name | ast.Attribute)}
+            calls = any(isinstance(x, ast.Call | ast.NamedExpr | ast.Yield | ast.Await) for v in n.value.elts for x in ast.walk(v))
+            roots = {t.split(".")[0] for t in tgt_txt}
+            if len(set(tgt_txt)) == len(tgt_txt) and not (set(tgt_txt) & read) and not (roots & {r for r in read if "." not in r} & set(tgt_txt)) and not calls:
+                return [ast.copy_location(ast.Assign(targets=[t], value=v), n) for t, v in zip(n.targets[0].elts, n.value.elts)]
         if len(n.targets) == 1 and isinstance(n.targets[0], ast.Name | ast.Attribute | ast.Subscript) and isinstance(n.value, ast.BinOp) and isinstance(n.value.op, ast.Add | ast.Sub | ast.Mult | ast.BitOr):
             if unparse(n.value.left) == unparse(n.targets[0]):
                 new = ast.AugAssign(target=n.targets[0], op=n.value.op, value=n.value.right)
